@@ -226,8 +226,42 @@ def do_actions(acts, where):
             time.sleep(30)
         elif kind == 'die_in_child':
             # only dies when this process is a layer subprocess
-            if '--resume-layer' in sys.argv:
+            if in_child():
                 do_actions([['die', act[1]]], where)
+        elif kind == 'in_child':
+            # ['in_child', action] or ['in_child', action, layer-name suffix]: only inside a layer subprocess
+            if in_child() and (len(act) < 3 or child_layer().endswith(act[2])):
+                do_actions([act[1]], where)
+        elif kind == 'noise':
+            # ['noise', stream, unit, count]: the unit written count times to a *raw* stream of this process
+            # (fd 1 / fd 2 / sys.__stderr__), bypassing whatever the runner installed as sys.stdout / sys.stderr
+            _, stream, unit, count = act
+            # does it reach the pipe a child's report travels on?  (sys.stderr does until the runner redirects it)
+            chan = stream in ('fd2', 'oe') or (stream == 'e' and (isinstance(sys.stderr, CutStderr) or
+                                                                   sys.stderr is sys.__stderr__))
+            emit('noise', stream=stream, unit=unit, count=count, where=where, chan=bool(chan and in_child()))
+            data = _decode_bytes(unit) * count
+            try:
+                sys.stdout.flush()
+            except Exception:  # noqa: BLE001
+                pass
+            if stream == 'fd1':
+                _write_all(1, data)
+            elif stream == 'fd2':
+                _write_all(2, data)
+            elif stream == 'oe':
+                sys.__stderr__.write(data.decode('latin1'))
+                sys.__stderr__.flush()
+            elif stream == 'o':
+                sys.stdout.write(data.decode('latin1'))
+            elif stream == 'e':
+                sys.stderr.write(data.decode('latin1'))
+        elif kind == 'atexit_noise':
+            import atexit
+            atexit.register(lambda a=act: do_actions([['noise', a[1], a[2], a[3]]], where + ':atexit'))
+        elif kind == 'set_executable':
+            emit('set_executable', value=act[1], where=where)
+            sys.executable = act[1]
         elif kind == 'barrier':
             barrier(act[1])
         elif kind == 'raise':
@@ -243,6 +277,119 @@ def do_actions(acts, where):
             emit('probe', where=where, so=sys.stdout is ORIG_STREAMS[0], se=sys.stderr is ORIG_STREAMS[1])
         else:
             raise RuntimeError('unknown action %r' % (act,))
+
+
+def in_child():
+    return '--resume-layer' in sys.argv
+
+
+def child_layer():
+    try:
+        return sys.argv[sys.argv.index('--resume-layer') + 1]
+    except (ValueError, IndexError):
+        return ''
+
+
+def _write_all(fd, data):
+    view = memoryview(data)
+    while view:
+        n = os.write(fd, view[:65536])
+        view = view[n:]
+
+
+class CutStderr:
+    """Replacement for ``sys.stderr`` of a layer subprocess, installed while the world is imported (i.e. before the
+    runner saves the stream it will write its report to).  It collects what is written through it and passes it on
+    when flushed/closed/at exit; it then logs the complete text to the trace and - if the world says so - lets only
+    the first k bytes through and ends the process on the spot (a report that is cut short)."""
+
+    def __init__(self, real, cfg):
+        self.real = real
+        self.cfg = cfg or {}
+        self.parts = []
+        self.done = False
+        self.encoding = getattr(real, 'encoding', 'utf-8')
+        self.errors = getattr(real, 'errors', 'backslashreplace')
+        import atexit
+        atexit.register(self._finish)
+
+    def write(self, s):
+        if self.done or sys.stderr is self:
+            # still installed as sys.stderr: the writer is arbitrary code, not the runner's report
+            self.real.write(s)
+            self.real.flush()
+            return len(s)
+        self.parts.append(s)
+        return len(s)
+
+    def writable(self):
+        return True
+
+    def isatty(self):
+        return False
+
+    def fileno(self):
+        return self.real.fileno()
+
+    def flush(self):
+        # the runner flushes once, after the last line of its report
+        if any(self.parts):
+            self._finish()
+
+    def close(self):
+        self._finish()
+
+    def _finish(self):
+        if self.done:
+            return
+        self.done = True
+        text = ''.join(self.parts)
+        data = text.encode(self.encoding or 'utf-8', 'backslashreplace')
+        cut = self.cfg.get('cut')
+        k = None
+        if cut is not None:
+            k = resolve_cut(cut, data)
+        emit('report', text=data.decode('latin1'), cut=k, how=self.cfg.get('how'))
+        try:
+            self.real.flush()
+        except Exception:  # noqa: BLE001
+            pass
+        if k is None or k >= len(data):
+            _write_all(2, data)
+            return
+        _write_all(2, data[:k])
+        do_actions([['die', self.cfg.get('how', 'exit0')]], 'report')
+
+
+def resolve_cut(cut, data):
+    """cut := ['abs', n] | ['frac', permille] | ['line', i, delta] (delta relative to the END of line i incl. its
+    newline; lines counted from 0; i is taken modulo the number of lines)"""
+    n = len(data)
+    if cut[0] == 'abs':
+        k = cut[1]
+    elif cut[0] == 'frac':
+        k = (n * cut[1]) // 1000
+    else:
+        ends = [i + 1 for i, b in enumerate(data) if b == 10] or [n]
+        k = ends[cut[1] % len(ends)] + cut[2]
+    return max(0, min(n, k))
+
+
+def install_child_faults(spec):
+    """called when the world is first imported in a process"""
+    if not in_child():
+        return
+    cfg = spec.get('child_stderr')
+    if getattr(sys.stderr, '_ztv_cut', False):
+        return
+    emit('child', layer=child_layer(), argv=sys.argv[1:4])
+    if cfg is not None:
+        # every child's report is observed; only the named layer's report is cut
+        if not child_layer().endswith(cfg.get('layer', '')):
+            cfg = {}
+        w = CutStderr(sys.stderr, cfg)
+        w._ztv_cut = True
+        sys.stderr = w
 
 
 def barrier(name, timeout=120.0):
@@ -580,6 +727,7 @@ def load_spec():
         with open(os.environ['ZTV_SPEC']) as f:
             _SPEC = json.load(f)
         init_from_env()
+        install_child_faults(_SPEC)
     return _SPEC
 
 
